@@ -767,7 +767,15 @@ impl OExec {
                             None
                         };
                         let gotp = got.map(|a| (a.fw, a.par));
-                        if res.starts_with("Err") {
+                        // a pair whose firmware geometry does not fit the slot is not a state `start` can produce: whether
+                        // it is resumed is not prescribed (the in-slot oracle of the writes still applies)
+                        let oversize = k >= 2 && {
+                            let fh = ring[(p + k - 2) % nn].as_ref().unwrap();
+                            fh.size == 0 || fh.n == 0 || (fh.size as usize) * (fh.n as usize) > self.slot.saturating_sub(0x4400)
+                        };
+                        if oversize {
+                            o.stat("app-status-on-oversize-pair");
+                        } else if res.starts_with("Err") {
                             fk(o, "C20", "app-status-err", format!("app_boot_status on ring {:?} answered {} (neither resumes nor reports idle); expected {:?}", ring.iter().map(|h| h.as_ref().map(|h| h.tok()).unwrap_or("-".into())).collect::<Vec<_>>(), res, expect));
                         } else if res == "PANIC" || gotp != expect {
                             fk(o, "C20", "app-status", format!("app_boot_status on ring {:?} answered {} {:?}, expected {:?}", ring.iter().map(|h| h.as_ref().map(|h| h.tok()).unwrap_or("-".into())).collect::<Vec<_>>(), res, gotp, expect));
@@ -1459,6 +1467,28 @@ pub fn gen_ring(seed: u64, thorough: bool, o: &mut Out) -> Vec<String> {
         q.push(format!("oseg 1 {}", hex(&vec![0u8; sz as usize])));
         q.push("odump".into());
         o.stat("unrepresentable-geometries");
+    }
+    // ---- an in-progress pair whose header fields are legal one by one but whose image does not fit the slot (a header
+    // written for larger slots / corrupt flash): the application status must not resume it, and whatever it answers,
+    // no accepted fragment may be programmed outside the session's slots
+    for (sz, n) in [(256u32, 300u32), (255, 16384), (64, 300), (200, 20), (4, 769)] {
+        for nslots in [3usize, 4, 6] {
+            q.push(format!("new odev {} 20480 4096", nslots));
+            let st = |j: usize, k: usize| -> (char, char, char, char) {
+                if j + 2 >= k { (kind_at(j, k), 'p', 'p', 'u') } else { confirmed(j, k) }
+            };
+            q.push(ring_line(&make_ring(nslots, 1, nslots.min(3), 7, sz, n, &st)));
+            q.push("obl".into());
+            q.push("oapp".into());
+            let room = (20480 - 0x4400) / sz as usize;
+            for i in [1usize, room, room + 1, room + 2, (20480 / sz as usize) + 1, n as usize, n as usize + 1, n as usize + room + 1] {
+                if i >= 1 {
+                    q.push(format!("oseg {} {}", i, hex(&vec![0x5Au8; sz as usize])));
+                }
+            }
+            q.push("odump".into());
+            o.stat("resume-from-oversize-header");
+        }
     }
     // ---- fragment-index sweep: (fragment size, slot size, data fragments, ring state placing the parity slot)
     let pairs: Vec<(usize, usize, usize, usize)> = vec![(40, 65536, 10, 0), (40, 65536, 10, 2), (256, 20480, 12, 0), (1, 20480, 100, 1), (7, 24576, 50, 0), (200, 65536, 200, 3), (3, 65536, 5000, 0)];
